@@ -258,7 +258,7 @@ func (z *E24) DecompressKarabina(x *E24) *E24 {
 	// t1 = g2 * g1
 	t[1].Mul(&x.D0.C2, &x.D0.C1)
 	// t2 = 2 * g4² - 3 * g2 * g1
-	t[2].Square(&x.D1.C1).
+	t[2].Square(&z.D1.C1).
 		Sub(&t[2], &t[1]).
 		Double(&t[2]).
 		Sub(&t[2], &t[1])
